@@ -25,6 +25,19 @@ pub enum Api {
     SetBuilder,
     RawInsert,
     RawFinish, // finish() instead of into_inner()
+    // the whole history through one bulk call
+    RawExtendIter,
+    RawExtendStream,
+    MapExtendIter,
+    MapExtendStream,
+    SetExtendIter,
+    SetExtendStream,
+}
+
+impl Api {
+    fn is_bulk(self) -> bool {
+        matches!(self, Api::RawExtendIter | Api::RawExtendStream | Api::MapExtendIter | Api::MapExtendStream | Api::SetExtendIter | Api::SetExtendStream)
+    }
 }
 
 /// Runs the history with sink call `at` answering `fault` (and, if
@@ -53,8 +66,8 @@ pub fn run_fault(kvs: &[Kv], reference: &[u8], api: Api, at: usize, fault: Ans, 
         // `new`: the sink is moved in; on error we cannot look at it, but the
         // error must be Io.
         let mut b = match api {
-            Api::MapBuilder => match fst::MapBuilder::new(sink) { Ok(b) => B::M(b), Err(e) => return check_err("new", &e) },
-            Api::SetBuilder => match fst::SetBuilder::new(sink) { Ok(b) => B::S(b), Err(e) => return check_err("new", &e) },
+            Api::MapBuilder | Api::MapExtendIter | Api::MapExtendStream => match fst::MapBuilder::new(sink) { Ok(b) => B::M(b), Err(e) => return check_err("new", &e) },
+            Api::SetBuilder | Api::SetExtendIter | Api::SetExtendStream => match fst::SetBuilder::new(sink) { Ok(b) => B::S(b), Err(e) => return check_err("new", &e) },
             _ => match raw::Builder::verif_new_with_registry(sink, 0, 3, 3) { Ok(b) => B::R(b), Err(e) => return check_err("new", &e) },
         };
         let ncalls = |b: &B| match b {
@@ -70,7 +83,38 @@ pub fn run_fault(kvs: &[Kv], reference: &[u8], api: Api, at: usize, fault: Ans, 
         if ncalls(&b) > at {
             return Err(format!("new returned Ok although sink call {} failed during it", at));
         }
+        if api.is_bulk() {
+            use crate::front::{VecStream, VecStreamKeys, VecStreamU64};
+            let r = match (&mut b, api) {
+                (B::R(b), Api::RawExtendIter) => b.extend_iter(kvs.iter().map(|(k, v)| (k, raw::Output::new(*v)))),
+                (B::R(b), _) => b.extend_stream(VecStream::new(kvs)),
+                (B::M(b), Api::MapExtendIter) => b.extend_iter(kvs.iter().map(|(k, v)| (k, *v))),
+                (B::M(b), _) => b.extend_stream(VecStreamU64::new(kvs)),
+                (B::S(b), Api::SetExtendIter) => b.extend_iter(kvs.iter().map(|(k, _)| k)),
+                (B::S(b), _) => b.extend_stream(VecStreamKeys::new(kvs)),
+            };
+            let data = accepted(&b);
+            if !reference.starts_with(&data) {
+                return Err("after the bulk call the sink holds bytes that are not a prefix of the fault-free output".into());
+            }
+            match r {
+                Err(e) => {
+                    if ncalls(&b) <= at {
+                        return Err(format!("bulk call failed ({:?}) before the injected fault", e));
+                    }
+                    return check_err("bulk call", &e);
+                }
+                Ok(()) => {
+                    if ncalls(&b) > at {
+                        return Err(format!("bulk call returned Ok although sink call {} failed during it", at));
+                    }
+                }
+            }
+        }
         for (i, (k, v)) in kvs.iter().enumerate() {
+            if api.is_bulk() {
+                break;
+            }
             let r = match &mut b {
                 B::M(b) => b.insert(k, *v),
                 B::S(b) => b.insert(k),
@@ -131,7 +175,7 @@ fn fault_from(v: &Value) -> Ans {
 }
 
 fn api_from(s: &str) -> Api {
-    *[Api::MapBuilder, Api::SetBuilder, Api::RawInsert, Api::RawFinish].iter().find(|a| format!("{:?}", a) == s).unwrap()
+    *[Api::MapBuilder, Api::SetBuilder, Api::RawInsert, Api::RawFinish, Api::RawExtendIter, Api::RawExtendStream, Api::MapExtendIter, Api::MapExtendStream, Api::SetExtendIter, Api::SetExtendStream].iter().find(|a| format!("{:?}", a) == s).unwrap()
 }
 
 pub fn replay(case: &Value) -> Result<String, String> {
@@ -149,7 +193,7 @@ pub fn replay(case: &Value) -> Result<String, String> {
 pub fn plan(tier: Tier) -> Plan {
     let mut p = Plan::new("C11", "fault_enumeration");
     let thorough = tier.thorough();
-    p.rule = "for each input (the C07 list - every emission site: header, each node form, index table, count byte, footer, checksum, flush - plus every subset of U_ab2) W = measured number of sink calls of the fault-free run; for every call index 0..W (writes and the final flush), every failure kind {Err(Other), Err(BrokenPipe), Err(PermissionDenied), Ok(0)}, single and persistent, through MapBuilder/SetBuilder/raw::Builder (into_inner and finish), and additionally with one benign deviation (every short write / Interrupted at every earlier call) before the fault: the API call during which the failing sink call happens must return Err(Io); no panic; no Ok from a call that saw the fault; accepted bytes stay a prefix of the fault-free output. non-trivial = every injected fault (all distinct by index x kind x mode x api)".into();
+    p.rule = "for each input (the C07 list - every emission site: header, each node form, index table, count byte, footer, checksum, flush - plus every subset of U_ab2) W = measured number of sink calls of the fault-free run; for every call index 0..W (writes and the final flush), every failure kind {Err(Other), Err(BrokenPipe), Err(PermissionDenied), Ok(0)}, single and persistent, through MapBuilder/SetBuilder/raw::Builder (into_inner and finish) with single inserts and with the whole history as one extend_iter / extend_stream call, and additionally with one benign deviation (every short write / Interrupted at every earlier call) before the fault: the API call during which the failing sink call happens must return Err(Io); no panic; no Ok from a call that saw the fault; accepted bytes stay a prefix of the fault-free output. non-trivial = every injected fault (all distinct by index x kind x mode x api)".into();
     p.assumptions = vec![
         "the caller stops at the first Err (as with `?`); behaviour of a builder that is used after it returned an error is not asserted".into(),
         "Ok(0) is only injected into write calls, never into flush".into(),
@@ -165,7 +209,10 @@ pub fn plan(tier: Tier) -> Plan {
         p.units.push(unit("fault-enumeration", format!("faults {}", name), move |st, rep| {
             let reference = match c07::reference(&kvs) { Ok(r) => r, Err(_) => return };
             let is_set = kvs.iter().all(|x| x.1 == 0);
-            let apis: Vec<Api> = if is_set { vec![Api::RawInsert, Api::RawFinish, Api::MapBuilder, Api::SetBuilder] } else { vec![Api::RawInsert, Api::RawFinish, Api::MapBuilder] };
+            let mut apis: Vec<Api> = vec![Api::RawInsert, Api::RawFinish, Api::MapBuilder, Api::RawExtendIter, Api::RawExtendStream, Api::MapExtendIter, Api::MapExtendStream];
+            if is_set {
+                apis.extend([Api::SetBuilder, Api::SetExtendIter, Api::SetExtendStream]);
+            }
             // W from the fault-free run
             let calls = match c07::run_one(&kvs, &reference, &[], Policy::Default) { Ok(c) => c, Err(_) => return };
             let w = calls.len();
